@@ -269,10 +269,10 @@ def do_unit(unit, ucfg, repo, wdir, tier, prop):
                 # describe by the next fn/line
                 desc = s
                 if kw in ("external_body", "#[verifier::external"):
-                    for j in range(i, min(i + 4, len(lines))):
-                        mm = re.search(r"fn\s+(\w+)", lines[j])
+                    for j in range(i, min(i + 10, len(lines))):
+                        mm = re.search(r"\b(fn|const|static|struct)\s+(\w+)", lines[j])
                         if mm:
-                            desc = "external_body fn " + mm.group(1)
+                            desc = "external_body %s %s" % (mm.group(1), mm.group(2))
                             break
                 reg = region_of(regions, i + 1)
                 if reg and reg["kind"] == "fn" and reg.get("mode") == "assume":
